@@ -8,7 +8,7 @@ Line protocol of C12.
                                            block) or `-1 <err>`
 * `dataset hdr | F | poolIds | poolNs | listing | filter | regexIds | extraNs | idxs | lists…` → data / vols / items of an
   `H5SliceData` / `FastMRIDataset` / `CalgaryCampinasDataset` built from constructor arguments
-* `cmr ctx | ids | as | bs | idxs`       → data / vols / items of a `CMRxReconDataset`
+* `cmr ctx mode | ids | as | bs | idxs`       → data / vols / items of a `CMRxReconDataset`
 * `locate sizes | idx`                  → `ok d j`
 * `fake   coils seed`                   → `ok finalGlobal | blobsSource | offsetSource`
 * `shepp  coils seed zero k`            → `ok finalGlobal | offsetSource | noiseSource`
@@ -113,8 +113,13 @@ def opDataset (hdr : List Int) (Farg : FilterArg) (poolIds poolNs listing filter
             else main)
   | _ => "err BadOp"
 
-def opCmr (ctxCode : Int) (ids as bs idxs : List Int) : String :=
+def opCmr (ctxCode mode : Int) (ids0 as0 bs0 idxs : List Int) : String :=
   let ctx : CmrContext := if ctxCode = 1 then .slice else if ctxCode = 2 then .time else .none
+  -- mode 0: `ids0` is the directory listing in OS order; mode 1: `filenames_filter`
+  let table := ids0.zip (as0.zip bs0)
+  let ids := if mode = 0 ∧ cmrListingSortedCurrent then sortFiles (fun a b => decide (a ≤ b)) ids0 else ids0
+  let as := ids.map fun f => ((table.lookup f).getD (-1, -1)).1
+  let bs := ids.map fun f => ((table.lookup f).getD (-1, -1)).2
   let shapes := ids.zip (as.zip bs)
   let files : List (Int × Option (Nat × Nat)) :=
     shapes.map fun (f, a, b) => (f, if a < 0 then none else some (a.toNat, b.toNat))
@@ -146,8 +151,8 @@ def step (op : String) (gs : List (List Int)) : String :=
       if poolIds.length ≠ poolNs.length ∨ poolIds.length ≠ extraNs.length then "err BadOp"
       else opDataset hdr F poolIds poolNs listing filter regexIds extraNs idxs lists
     | none => "err BadOp"
-  | "cmr", [[ctx], ids, as, bs, idxs] =>
-    if ids.length ≠ as.length ∨ ids.length ≠ bs.length then "err BadOp" else opCmr ctx ids as bs idxs
+  | "cmr", [[ctx, mode], ids, as, bs, idxs] =>
+    if ids.length ≠ as.length ∨ ids.length ≠ bs.length then "err BadOp" else opCmr ctx mode ids as bs idxs
   | "locate", [sizes, [idx]] =>
     if sizes.any (· < 0) then "err BadOp" else
     match concatGet (nats sizes) idx with
